@@ -565,16 +565,35 @@ pub fn cache_main() {
     j.join().unwrap();
   }
   // quiescence: drive maintenance to a fixpoint (bounded)
+  // Settled = two consecutive passes leave residents and current_cost unchanged AND the policies
+  // did nothing effective in the last pass (no admission, no eviction that named a victim): a
+  // pass that only evicted a key the policy tracked but the map no longer holds changes nothing
+  // visible, yet maintenance is not finished. Without the policy proxy a few extra quiet
+  // passes are required instead.
   let mut last: Option<(Vec<(u8, u32, u32, u64)>, u64)> = None;
   let mut passes = 0;
   let mut settled = false;
-  for _ in 0..40 {
+  let mut quiet = 0;
+  for _ in 0..60 {
+    let pol_before = HIST.with(|h| h.borrow().pol.len());
     cache.run_maintenance();
     passes += 1;
+    let effective = HIST.with(|h| {
+      h.borrow().pol[pol_before..].iter().any(|p| match &p.call {
+        PolCall::Admit { .. } => true,
+        PolCall::Evict { victims, .. } => !victims.is_empty(),
+        _ => false,
+      })
+    });
     let cur = (residents(&cache), cache.metrics().current_cost);
-    if last.as_ref() == Some(&cur) {
-      settled = true;
-      break;
+    if last.as_ref() == Some(&cur) && !effective {
+      quiet += 1;
+      if quiet >= if sc.default_policy { 8 } else { 1 } {
+        settled = true;
+        break;
+      }
+    } else {
+      quiet = 0;
     }
     last = Some(cur);
   }
